@@ -2,7 +2,7 @@
    M <optst 0|1> <defines: hex(raw -d argument);..|-> <tree>      the extracted loop (Model/Cond.run)
         -> OK <marker bytes hex|-> <name:kind:value;..|->  |  ERR <class>  (ERR unused <name:kind:value;..|->: the table the loop ended with)  |  PANIC  |  FUEL  |  ERR define
    S <rho: name:value;..|-> <tree>                               the extracted Spec (select under the valuation rho)
-        -> <decided 0|1> <marker bytes hex|-> <names name:kind;..|-|NONE> <selected list, serialised|->
+        -> <decided 0|1> <marker bytes hex|-> <names name:kind;..|-|NONE> <selected list, serialised|-> <arm taken at each #if met, t|f|n ..|->
    tree  := node*        (tokens separated by single blanks, prefix form)
    node  := L <lvl> <name> | K <lvl> <name> <expr> | O <id> | I <expr> <n> node^n (N | E <m> node^m)
    expr  := b0 | b1 | i<decimal> | v <lvl> <k> name^k | ! expr | ~ expr | B<op> expr expr   op in + - = # < [ > ] & |
@@ -117,6 +117,18 @@ let () = iter_lines (fun line ->
     let names = match world_names [] [] sel with
       | None -> "NONE"
       | Some ns -> dash (String.concat ";" (List.map (fun (p, k) -> string_of_text (join_dot p) ^ ":" ^ kind_str k) ns)) in
-    print_endline ((if dec then "1" else "0") ^ "\t" ^ marker_hex (markers sel) ^ "\t" ^ names ^ "\t" ^ dash (String.concat " " (List.map s_flat sel)))
+    (* glue for the checker only: which arm `select` takes at every #if it meets, in pre-order (t/f/n); the checker
+       replays these on its own tree and verifies that it obtains exactly the list printed here *)
+    let buf = Buffer.create 16 in
+    let rec trace nodes = List.iter (function
+      | NIf (c, t, f) ->
+        (match eval lk c with
+         | ROk (VBool true) -> Buffer.add_char buf 't'; trace t
+         | ROk (VBool false) -> Buffer.add_char buf 'f'; (match f with Some l -> trace l | None -> ())
+         | _ -> Buffer.add_char buf 'n')
+      | _ -> ()) nodes in
+    trace tr;
+    print_endline ((if dec then "1" else "0") ^ "\t" ^ marker_hex (markers sel) ^ "\t" ^ names ^ "\t" ^ dash (String.concat " " (List.map s_flat sel))
+                   ^ "\t" ^ dash (Buffer.contents buf))
   | _ -> print_endline "?"
   with Failure m -> print_endline ("BAD " ^ m) | Not_found -> print_endline "BAD nf" | Invalid_argument m -> print_endline ("BAD " ^ m))
